@@ -146,6 +146,10 @@ package cache
 //@   ensures len(ret(getMsgKey, 0)) > 0 && ret(getRespFromCache, 0, 0) == nil ==> calls(SetResponse) == 0
 //@   ensures len(ret(getMsgKey, 0)) > 0 ==> calls(doLazyUpdate) == ite(ret(getRespFromCache, 0, 1), 1, 0)
 //@   ensures calls(doLazyUpdate) == 1 ==> arg(doLazyUpdate, 0, 1) == ret(getMsgKey, 0) && arg(doLazyUpdate, 0, 2) == qCtx
+// the background refresh is started from the context as the client sent it: BEFORE the stale
+// answer is put into it (a refresh context that already carries a response would be accepted by
+// has_resp-style rules and re-store the stale answer as a new one)
+//@   ensures[C05] calls(doLazyUpdate) == 1 && calls(SetResponse) == 1 ==> callpos(doLazyUpdate, 0) < callpos(SetResponse, 0) && atcall(doLazyUpdate, 0, qCtx.resp == old(qCtx.resp))
 //@   ensures calls(saveRespToCache) <= 1
 //@   ensures calls(saveRespToCache) == 1 ==> arg(saveRespToCache, 0, 0) == ret(getMsgKey, 0) && arg(saveRespToCache, 0, 2) == c.backend && arg(saveRespToCache, 0, 1) == aftercall(ExecNext, 0, qCtx.resp) && arg(saveRespToCache, 0, 1) != ret(getRespFromCache, 0, 0) && callpos(ExecNext, 0) < callpos(saveRespToCache, 0)
 //@   ensures len(ret(getMsgKey, 0)) > 0 && aftercall(ExecNext, 0, qCtx.resp != nil) && aftercall(ExecNext, 0, qCtx.resp) != ret(getRespFromCache, 0, 0) ==> calls(saveRespToCache) == 1
